@@ -13,7 +13,7 @@ func init() {
 	register(&propDef{
 		ID: "C06",
 		Meta: propMeta{
-			Explanation: "Decides on every path: (R06a) the only functions that call through the Signer.Sign registry field are the server's /sign handler and the standalone sign command, and Signer.Sign functions are not invoked directly from elsewhere; (R06b) in the /sign handler, from the success edge of mod.Sign no use of the ResponseWriter (other than Header()) and no nil-error return is reachable without crossing PublishAudit(...)==nil, PublishAudit is called exactly once outside any loop, and its argument is the audit.Info created by this request's signinit.Init; (R06c) the same for the standalone command with the nil return as sink; (R06d) PublishAudit cannot return nil when a configured sink was skipped or failed, and every error in Info.AppendTo / Info.Publish is propagated; (R06e) AppendTo opens with O_APPEND, performs exactly one write outside any loop, of a buffer that ends in the newline appended before the write; (R06f) the record is built from this request's objects: audit.New receives the key config's name, the signer's name and the digest; the certificate recorded is InitKey's; SignOpts carries that Info and that digest; the handler stores client.ip / client.filename and calls UserInfo.AuditContext before publishing, and every UserInfo implementation records a client.* attribute.",
+			Explanation: "Decides on every path: (R06a) the only functions that call through the Signer.Sign registry field are the server's /sign handler and the standalone sign command, and Signer.Sign functions are not invoked directly from elsewhere; (R06b) in the /sign handler, from the success edge of mod.Sign no use of the ResponseWriter (other than Header()) and no nil-error return is reachable without crossing PublishAudit(...)==nil, PublishAudit is called exactly once outside any loop, and its argument is the audit.Info created by this request's signinit.Init; (R06c) the same for the standalone command with the nil return as sink; (R06d) PublishAudit cannot return nil when a configured sink was skipped or failed, and every error in Info.AppendTo / Info.Publish is propagated; (R06e) AppendTo opens with O_APPEND, performs exactly one write outside any loop, of a buffer that ends in the newline appended before the write; (R06f) the record is built from this request's objects: audit.New receives the key config's name, the signer's name and the digest; the certificate recorded is InitKey's; SignOpts carries that Info and that digest; the handler stores client.ip / client.filename and calls UserInfo.AuditContext before publishing, and every UserInfo implementation records a client.* attribute. (R06g) no value that reaches a function result is the memory of an object that went back into a sync.Pool (shared with C14 R14e): the serialised audit record cannot be overwritten by a concurrent request before it is delivered.",
 			NotDecided:  "atomicity of O_APPEND writes in the kernel, broker behaviour, and that the attribute values equal what the signer actually used beyond being derived from the same objects.",
 			Assumptions: []string{"a single write(2) on an O_APPEND descriptor is not interleaved with other appenders (POSIX, for sizes the kernel writes atomically)"},
 		},
@@ -168,6 +168,7 @@ func runC06(c *Ctx) {
 	c06Publish(c, rd)
 	c06Append(c, rd, re)
 	c06Content(c, rf)
+	c06Pooled(c)
 }
 
 func c06Entry(c *Ctx, rule, rf, spec string, isServer bool) {
@@ -683,4 +684,19 @@ func c06Content(c *Ctx, rf string) {
 		}
 		c.Check(ok, rf, p.FName(fn)+" records a client attribute", p.Pos(fn.Pos()), "stores client.* unconditionally", "this UserInfo implementation does not always record who the client is")
 	}
+}
+
+// c06Pooled (R06g): the serialised record is this request's own memory. A record marshalled into
+// a pooled buffer whose bytes are handed on (to the AMQP message, to the file write) can be
+// overwritten by the next request's record before it is delivered: one record lost, one doubled.
+func c06Pooled(c *Ctx) {
+	p := c.P
+	c.Rule("R06g", "the bytes of an audit record are never memory that went back into a sync.Pool", 0)
+	for _, f := range poolEscapes(p) {
+		c.Check(f.OK, "R06g", f.Key, f.Pos, "", f.Detail)
+	}
+	for _, f := range poolUseAfterPut(p) {
+		c.Check(f.OK, "R06g", f.Key, f.Pos, "", f.Detail)
+	}
+	c.runControl("R06g pooled memory also returned", "hasher).release", poolEscapes)
 }
